@@ -264,12 +264,36 @@ class Loop:
         return base if self.depth == 0 else "%s/#%d" % (base, self.depth)
 
 
+def _event_lets(t):
+    """Names bound by `let (ns, event) = reader.read_resolved_event()?;` in this function: a later `match (ns, event) {..}` is a reader
+    match just like one on the call itself."""
+    out = []
+    for st in T.walk(T.user_body(t)):
+        if st.get("k") == "LetStmt" and st.get("init") is not None:
+            sc = X.ntext(st["init"])
+            if sc.startswith("NsReader::read_resolved_event(") and sc.endswith("?"):
+                names = [n.get("name") for n in T.walk(st.get("pat") or {}) if n.get("k") == "Bind"]
+                if names:
+                    out.append(tuple(names))
+    return out
+
+
+def is_event_match(t, n):
+    sc = X.ntext(n["scrut"])
+    if sc.startswith("NsReader::read_resolved_event(") and sc.endswith("?"):
+        return True
+    e = T.peel(n["scrut"])
+    if e.get("k") == "Tuple":
+        names = tuple(T.peel(f).get("name") for f in e.get("fields", []) if T.peel(f).get("k") == "Var")
+        return len(names) == len(e.get("fields", [])) and names in _event_lets(t)
+    return False
+
+
 def _find_loops(fn, t, node, depth, parent_arm, out):
     """Walk: a Match whose scrutinee is `reader.read_resolved_event()?` is a reader loop; recurse into arm bodies."""
     for n in T.walk(node):
         if n.get("k") == "Match":
-            sc = X.ntext(n["scrut"])
-            if sc.startswith("NsReader::read_resolved_event(") and sc.endswith("?"):
+            if is_event_match(t, n):
                 lp = Loop(fn, t, n, depth, parent_arm)
                 out.append(lp)
                 for a, arm in zip(n["arms"], lp.arms):
@@ -286,8 +310,7 @@ def _walk_top(fn, t, node, out):
         if not isinstance(n, dict):
             continue
         if n.get("k") == "Match":
-            sc = X.ntext(n["scrut"])
-            if sc.startswith("NsReader::read_resolved_event(") and sc.endswith("?"):
+            if is_event_match(t, n):
                 lp = Loop(fn, t, n, 0, None)
                 out.append(lp)
                 for a, arm in zip(n["arms"], lp.arms):
@@ -305,8 +328,7 @@ def _walk_nested(fn, t, node, depth, parent_arm, out):
         if not isinstance(n, dict):
             continue
         if n.get("k") == "Match":
-            sc = X.ntext(n["scrut"])
-            if sc.startswith("NsReader::read_resolved_event(") and sc.endswith("?"):
+            if is_event_match(t, n):
                 lp = Loop(fn, t, n, depth, parent_arm)
                 out.append(lp)
                 for a, arm in zip(n["arms"], lp.arms):
